@@ -126,9 +126,7 @@ theorem total_mergeRc (k : Kind) (rc base : Xml) : Total rc.kids (mergeRc k rc b
   case StoryInsert =>
     split
     · exact total_failWith _ _ _
-    · split
-      · exact total_failWith _ _ _
-      · exact total_of_noerr _ _ (insertDedup_noerr_any _ _ _ _ _)
+    · exact total_of_noerr _ _ (insertDedup_noerr_any _ _ _ _ _)
   case ItemInsert => exact total_inStory _ _ _ _ (fun items => total_insertBefore _ _ _ _ _)
   case StoryMove =>
     split
@@ -178,9 +176,7 @@ theorem total_mergeRc (k : Kind) (rc base : Xml) : Total rc.kids (mergeRc k rc b
   case EAStoryInsert =>
     split
     · exact total_failWith _ _ _
-    · split
-      · exact total_failWith _ _ _
-      · exact total_of_noerr _ _ (insertDedup_noerr_any _ _ _ _ _)
+    · exact total_of_noerr _ _ (insertDedup_noerr_any _ _ _ _ _)
   case EAItemInsert => exact total_inStory _ _ _ _ (fun items => total_insertBefore _ _ _ _ _)
   case EAStorySwap => exact total_swapTwo _ _ _ _
   case EAItemSwap => exact total_inStory _ _ _ _ (fun items => total_swapTwo _ _ _ _)
